@@ -438,10 +438,23 @@ def model_of(rec, dry):
             k, eff = W.fault_k(pt, n1, m1)
         else:
             li = sc['line_info']
+            if li.get('closed', 0) >= 2 and li.get('fh_started') == li.get('fh_done'):
+                # both files are complete and closed: whether this instant is still guarded (the exception then removes
+                # the complete entry) or not (it stays) is a freedom of the implementation - both answers are accepted
+                done = f"SAVE mode={c['mode']} n={n1} m={m1} kind=crash k={9 + n1 + m1} lose=0"
+                undone = f"SAVE mode={c['mode']} n={n1} m={m1} kind=fault k={8 + n1 + m1} eff=1 del=ok"
+                if W.line_after_region(li):
+                    rec['alt_line'] = undone
+                    return done, 9 + n1 + m1, True
+                rec['alt_line'] = done
+                return undone, 8 + n1 + m1, True
             if W.line_after_region(li):
                 # the signal landed after the guarded region was left: the save is complete
                 return f"SAVE mode={c['mode']} n={n1} m={m1} kind=crash k={9 + n1 + m1} lose=0", 9 + n1 + m1, True
             k, eff = (max(1, W.line_k(li, n1, m1)) if W.line_in_try(li) else 0), 0
+            if li.get('fh_started') == 0 and k <= 1:
+                # nothing of the entry has been opened yet: both "already guarded" and "not yet guarded" are accepted
+                rec['alt_line'] = f"SAVE mode={c['mode']} n={n1} m={m1} kind=fault k={1 - k} eff=0 del=ok"
         return f"SAVE mode={c['mode']} n={n1} m={m1} kind=fault k={k} eff={eff} del=ok", k, True
     if sc.get('completed'):
         k = 9 + n1 + m1
@@ -481,6 +494,8 @@ def evaluate(recs, dry_of):
         rec['k'], rec['durable'], rec['model_line'] = k, durable, ml
         lines.append(ml)
     outs = driver.run_lines(lines) if lines else []
+    alts = [r for r in recs if r.get('alt_line')]
+    alt_out = dict(zip((id(r) for r in alts), driver.run_lines([r['alt_line'] for r in alts]))) if alts else {}
     violations, disagreements = [], []
     for rec, mo in zip(recs, outs):
         c = rec['case']
@@ -488,10 +503,9 @@ def evaluate(recs, dry_of):
         rec['real'] = real_obs(rec)
         model_safe = mo.endswith('safe=1')
         soft = c.get('sig') in SOFT
-        mo_cmp = ' '.join(w for w in mo.split() if not w.startswith('safe='))
-        if soft:
-            mo_cmp = mo_cmp.replace('raised=1', 'raised=0')
-        if rec['real'] != mo_cmp:
+        norm = lambda x: ' '.join(w for w in x.split() if not w.startswith('safe=')).replace('raised=1', 'raised=0' if soft else 'raised=1')
+        mo_cmp = norm(mo)
+        if rec['real'] != mo_cmp and not (id(rec) in alt_out and rec['real'] == norm(alt_out[id(rec)])):
             disagreements.append(dict(case=c, k=rec['k'], real=rec['real'], model=mo_cmp, line=rec['model_line'],
                                       files=rec.get('files'), sidecar=rec['sidecar']))
         rep = dict(kind='save-crash', case=c, k=rec['k'], durable=rec['durable'], real=rec['real'], model=mo,
